@@ -10,8 +10,8 @@ PROPS_V = "theories/Props/C07.v"
 THEOREMS = ["C07_roundtrip_refuted", "C07_roundtrip_outside_known", "C07_roundtrip_outside_known_example",
             "C07_known_classes_fail", "C07_tiers_agree_refuted", "C07_tiers_agree_outside_known",
             "C07_zone_pointwise", "C07_zone_roundtrip", "C07_compaction_fixpoint", "C07_string_retyped_characterised",
-            "C07_projection", "C07_projection_example", "C07_return_mislabel_refuted",
-            "C07_memtable_flow_exact_outside_known", "C07_sink_agrees"]
+            "C07_projection", "C07_projection_example", "C07_memtable_flow_exact", "C07_wal_exact",
+            "C07_restart_invisible", "C07_former_witnesses_pass", "C07_sink_agrees"]
 RULE = ("function level: JSON texts / scalars / cell texts through the real STORE parser, ScalarValue::from / to_json, "
         "WalEntry serde round trip, EventBuilder and real column blocks (ColumnGroupBuilder -> decoder -> both "
         "materialisations -> values_to_scalar); engine level: one schema with every field type (string, int, u64, float, "
@@ -28,17 +28,18 @@ ASSUMPTIONS = [
     "time fields enter the model already normalised to epoch seconds (C16 covers the normalisation); the oracle computes the expected seconds with CPython's datetime",
     "schema field names do not collide with the core field names; Optional(Enum) is not definable through DEFINE",
     "sonic-rs (STORE parser, renderer) is modelled only for scalar tokens: correctly rounded floats, -0.0 read as +0.0",
+    "with float_roundtrip, ryu's shortest digits read back by a correctly rounded reader give the same double (WAL floats modelled as the identity; tied by the value_wal probe and the engine restarts)",
 ]
 TRUSTED = [
     "Coq 8.16.1 kernel + coqc; vm_compute for closed witnesses; no native_compute",
-    "translator tools/params/p50_value.py (to_json threshold, add_payload_field keywords, field type -> physical type arms, var-bytes blocks without null bitmap)",
+    "translator tools/params/p50_value.py (to_json threshold, add_payload_field keywords, field type -> physical type arms, var-bytes blocks without null bitmap, serde_json float_roundtrip feature in Cargo.toml, Vec vs HashSet in SelectionProjection::compute)",
     "extraction: ExtrOcamlBasic only; ocaml/driver.ml, conv.ml, p_value.ml (parsing/printing)",
     "correspondence harness /verif/harness (vharn fn value_*, vharn life) built against /repo with --cfg sneldb_verif; tools/engine.py",
     "python oracle: CPython json, float and int arithmetic (independent of model and implementation)",
 ]
 CLAIMED = True
 MANIFEST = {
- "level_text": "Theorems over the value-path model (all field types, all schema-conforming values, all layouts = {memtable, WAL-recovered} x {in memory, flushed, flushed and compacted n times}, all zone compositions): the round trip is refuted with five witnesses, one per mechanism (to_json re-parses strings that are JSON arrays/objects/large integers; EventBuilder re-types var-bytes cells that read as keywords, integers or finite floats after Unicode trimming; null in a var-bytes column becomes the empty string; integers in float fields are rounded to doubles on flush; floats recovered from the WAL are re-read by serde_json's non-round-tripping reader), and proved exact outside these five decidable classes; tiers agree outside the four tier-dependent classes; compaction is a fixpoint of the flushed cell; a zone column is read back pointwise; RETURN keeps every core column unchanged and adds only requested schema fields. The model (incl. a byte-level model of serde_json::from_str, Rust's integer/float grammars, Unicode trim, IEEE rounding and shortest float printing) is run against the real ScalarValue / WalEntry / EventBuilder / column block code and against the engine (QUERY and REPLAY in every tier, with and without RETURN).",
+ "level_text": "Theorems over the value-path model (all field types, all schema-conforming values, all layouts = {memtable, WAL-recovered} x {in memory, flushed, flushed and compacted n times}, all zone compositions): the round trip is refuted with four witnesses, one per remaining mechanism (to_json re-parses strings that are JSON arrays/objects/large integers; EventBuilder re-types var-bytes cells that read as keywords, integers or finite floats after Unicode trimming; null in a var-bytes column becomes the empty string; integers in float fields are rounded to doubles on flush), and proved exact outside these four decidable classes; tiers agree outside the three tier-dependent classes; the WAL line is exact for every scalar and a restart is invisible (after fix 32b7370, float_roundtrip, read from Cargo.toml); compaction is a fixpoint of the flushed cell; a zone column is read back pointwise; RETURN keeps every core column unchanged and adds only requested schema fields, in the segment flow and (after fix f2ae870, RETURN order read from strategies.rs) in the memtable flow under any RETURN list. The model (incl. a byte-level model of serde_json::from_str, Rust's integer/float grammars, Unicode trim, IEEE rounding and shortest float printing) is run against the real ScalarValue / WalEntry / EventBuilder / column block code and against the engine (QUERY and REPLAY in every tier, with and without RETURN).",
  "design_ref": "DESIGN.md \u00a76 C07",
  "level_note": "Trusted: Coq kernel; tools/params/p50_value.py; ExtrOcamlBasic extraction + OCaml driver; the Rust harness and tools/engine.py; CPython json/float (oracle). Assumed, not proved: Rust Display/parse round trip of f64, the block codec as identity, sonic-rs scalar parsing as modelled. Time normalisation is C16's."
 }
@@ -100,7 +101,8 @@ def json_text(v, rng=None):
     """JSON text the client sends for a stored value (no '+' in exponents: the command tokenizer rejects it)."""
     if isinstance(v, float):
         t = repr(v)
-        if "e" in t:
+        if "e" in t and not (rng and rng.chance(1, 2)):
+            # CPython writes 1e+300; both spellings are sent (the tokenizer accepts '+' since b3737c8)
             m, e = t.split("e")
             e = e.replace("+", "")
             t = m + "e" + e
@@ -133,7 +135,7 @@ NASTY = ["true", "false", "null", "TRUE", "True", "Null", "123", "9", "-5", "+5"
          "[-9223372036854775808, -9223372036854775809]", "[1.5e-7, 123456789012345678901234567890]", "{\"k\\u0041\":null}", "[true,false,null]",
          "[ ]", "{ }", "[1 ,2]", "[01]", "[1.]", "[.5]", "[+1]", "{\"a\"}", "{a:1}", "['a']", "[1] x", "1e", "1e+", "e5", "--5", "+-5", "5-", "1.2.3",
          "4.5e10", "-4.5E-10", "１２３", "٣", "1e5\u00a0", "0.30000000000000004", "9007199254740993", "-9007199254740993.0",
-         "[" * 127 + "]" * 127, "[" * 128 + "]" * 128, "{\"a\":" * 126 + "1" + "}" * 126, "x" * 3000, "7" * 400, "0." + "0" * 400 + "1",
+         "}{", "a}b", "a{b", "{", "[" * 127 + "]" * 127, "[" * 128 + "]" * 128, "{\"a\":" * 126 + "1" + "}" * 126, "x" * 3000, "7" * 400, "0." + "0" * 400 + "1",
          "1" + "0" * 310, "1" + "0" * 308, "1e308", "1e309", "17976931348623158" + "0" * 292, "179769313486231580793728971405303415079934132710037826936173778980444968292764750946649017977587207096330286416692887910946555547851940402630657488671505820681908902000708383676273854845817711531764475730270069855571366959622842914819860834936475292719074168444365510704342711559699508093042880177904174497791.9999999999999999999999999999999",
          "179769313486231580793728971405303415079934132710037826936173778980444968292764750946649017977587207096330286416692887910946555547851940402630657488671505820681908902000708383676273854845817711531764475730270069855571366959622842914819860834936475292719074168444365510704342711559699508093042880177904174497792"]
 
@@ -181,6 +183,8 @@ def gen_string(rng):
 
 
 def braces_ok(s):
+    # since fced25a the STORE payload scanner ignores braces inside string literals: every string is sent
+    return True
     d = 0
     for ch in s:
         if ch == "{":
@@ -763,8 +767,8 @@ def run_sides(cases_, model_ok):
             want = dict(zip(ls, outs))
         for i in en_idx:
             r = impl[i]
-            if model_ok:
-                assign_sources(cases_[i], r, want)
+            # (assign_sources, which explained in-memory RETURN rows by a per-read column permutation, is no longer
+            #  applied: since fix f2ae870 a mislabelled cell is a disagreement and an oracle failure)
             for x in r["cells"]:
                 m = want.get(src_line(cases_[i], x))
                 x["model"] = m
@@ -940,8 +944,6 @@ def engine_failures(c, impl):
 def cell_classes(x):
     m = (x.get("model") or "").split(" ")
     cls = [k for k in m[1].split(",") if k != "-"] if len(m) > 1 else []
-    if x["src"] != x["field"]:
-        cls = ["ReturnColumnsMislabelledInMemory"] + cls
     return cls
 
 
@@ -956,7 +958,8 @@ def pick_failure(c, impl):
     return fails[0]
 
 
-FN_CLASS = {"tojson_str": "Utf8ReparsedOnRender", "builder_var": "StringRetyped", "wal_float": "FloatWalReparsedInexact"}
+# fixed classes are never returned: FloatWalReparsedInexact (32b7370), ReturnColumnsMislabelledInMemory (f2ae870)
+FN_CLASS = {"tojson_str": "Utf8ReparsedOnRender", "builder_var": "StringRetyped"}
 
 
 def oracle(c, impl):
